@@ -220,9 +220,20 @@ def gen_item(run_seed):
     elif r < 0.70:
         base = ringgen.gen_fragment(rng)
         bdesc = 'gen-fragment'
-    elif r < 0.92:
+    elif r < 0.80:
         base = ringgen.gen_rule(rng)
         bdesc = 'gen-rule'
+    elif r < 0.92:
+        # well-formed text with one semantic fault (label misuse etc.);
+        # mostly left without further text-stream faults
+        if rng.random() < 0.7:
+            base, sem = ringgen.gen_semantic_rule(rng)
+        else:
+            base, sem = ringgen.gen_semantic_fragment(rng)
+        bdesc = 'semantic:' + sem
+        if rng.random() < 0.8:
+            return {'id': 'm%d' % run_seed, 'text': base, 'base': bdesc,
+                    'faults': [{'kind': 'semantic:' + sem}]}
     else:
         base = ringgen.gen_noise(rng)
         bdesc = 'noise'
